@@ -186,6 +186,18 @@ PrintOK(r) ==
 \* possible): the call succeeds, every byte arrives once and in order, the count is the length.
 PipeOK(r) == r.ok = 1 /\ r.mismatch = -1 /\ r.rlen = r.len /\ r.count = r.len
 
+\* The helpers on every CONCRETE implementor of Read / Write in the library (File, UnixStream,
+\* TcpStream, AnonPipe; harness/src/bin/ioimpls.rs), so that an implementor's own override of a
+\* helper is what runs.  plan = 0: the run must succeed and move exactly the expected bytes (count
+\* = their number); plan = 1: a planned error (peer gone with the payload not fitting its buffers,
+\* read_exact beyond what is there) must be returned; plan = 2: either.  Never a panic; no answer
+\* within the (generous) limit is a hang, which no outcome of the definitions above admits.
+ImplOK(r) ==
+    /\ r.panic = "" /\ r.hang = 0
+    /\ CASE r.plan = 0 -> r.ok = 1 /\ r.mismatch = -1 /\ r.rlen = r.len /\ r.count = r.len
+         [] r.plan = 1 -> r.ok = 0
+         [] r.plan = 2 -> TRUE
+
 ---------------------------------------------------------------------------
 (* PART 2: the transcription *)
 CONSTANTS Grow(_, _),        \* Grow(len, cap): capacities Vec::reserve(32) may yield for a full vector
